@@ -45,6 +45,12 @@ def run_program(rec, hub, seed_rng, steps, letters="abcd", ill_rate=0.3, props=(
 
     for _ in range(3):
         pool.add(new_array(), fd)
+    # a dimension built from a list the user keeps (and goes on editing): arrays over it are in the pool from the start
+    own_items = ["u1", "u2", "u3"]
+    udim = fd.Dimension(letter="u", name="the user's own", items=own_items)
+    own_copy = fd.Dimension(letter="u", name="the user's own", items=udim.items) if rng.random() < 0.5 else udim  # rebuilt from another one's attribute
+    pool.add(fd.FlodymArray(dims=fd.DimensionSet(dim_list=[udim]), values=np.array([1.0, 2.0, 3.0])), fd)
+    pool.add(fd.FlodymArray(dims=fd.DimensionSet(dim_list=[U[letters[0]], own_copy]), values=np.ones((len(U[letters[0]].items), 3))), fd)
     live = {"ds": gen.dimset(fd, U, rand_letters())}
     keep_fill = []
 
@@ -60,7 +66,14 @@ def run_program(rec, hub, seed_rng, steps, letters="abcd", ill_rate=0.3, props=(
         """returns (description, in-place target or None, results to add)"""
         ill = rng.random() < ill_rate
         x = pick()
-        kind = rng.choice(["ctor", "binop", "reduce", "read", "write", "setvals", "df", "stack", "apply", "stock", "copy", "classm", "dimset"])
+        kind = rng.choice(["ctor", "binop", "reduce", "read", "write", "setvals", "df", "stack", "apply", "stock", "copy", "classm", "dimset", "own_list"])
+        if kind == "own_list":
+            # the user edits the list the dimension was once built from: every array over that dimension stays what it is
+            if rng.random() < 0.6:
+                own_items.append(f"u{len(own_items) + 1}")
+            elif len(own_items) > 1:
+                own_items.pop()
+            return ("own_list edited", None, [])
         ls = tuple(x.dims.letters)
         if kind == "dimset":
             # a dimension set kept by the user: looked at, edited in place, and used to declare arrays in between
